@@ -182,7 +182,10 @@ def expected(m, inst, name, parent_ns):
                         items.append(["e", ens, local, [[S.XSI, "nil", "true"]], []])
                     continue
                 if isinstance(f["type"], dict):
-                    items.append(expected(f["type"], x, (ens, local), name[0]))
+                    # a class without Meta.namespace inherits the namespace of the enclosing instance's class
+                    # (repair c01g-01: the serializer hands meta.namespace down like the parser; before: the
+                    # namespace of the enclosing element name, name[0])
+                    items.append(expected(f["type"], x, (ens, local), cns))
                 else:
                     items.append(["e", ens, local, [], [["t", x]] if x else []])
             if f["wrapper"]:
